@@ -7,7 +7,12 @@ while [ $i -lt $N ]; do
   SEED=$((S0 + i))
   for C in C01 C02 C03 C04 C06 C07 C08 C09 C10 C11 C12 C13 C15 C16 C17 C18 C19 C20; do
     OUT=$(VERIF_SEED=$SEED VERIF_NO_EVIDENCE=1 ./vcheck $C $TIER 2>&1); RC=$?
-    if [ $RC -ne 0 ]; then echo "SOAK seed=$SEED check=$C rc=$RC"; echo "$OUT" | grep -E "VIOLATION|oracle=|HARNESS|Error" | head -8; fi
+    if [ $RC -ne 0 ]; then
+      echo "SOAK seed=$SEED check=$C rc=$RC"; echo "$OUT" | grep -E "VIOLATION|oracle=|HARNESS|Error" | head -8
+      # keep the replay files outside the (temporary) snapshot this may be running from
+      mkdir -p "${SOAK_KEEP:-/root/.vp/soak-replays}"
+      for F in $(echo "$OUT" | sed -n 's/^VIOLATION .*replay=//p'); do cp "$F" "${SOAK_KEEP:-/root/.vp/soak-replays}/" 2>/dev/null; done
+    fi
   done
   echo "soak seed $SEED done"
   i=$((i + 1))
